@@ -8,6 +8,7 @@ import (
 	"sort"
 	"strings"
 	"sync"
+	"time"
 
 	"github.com/tigerwill90/fox"
 
@@ -215,11 +216,11 @@ func permutations(ks []hist.Key, fn func([]hist.Key)) {
 	rec(0)
 }
 
-func runPool(c *mc.Ctx, r *mc.Result, name string, p *hist.Pool, maxLive, permMax int) {
+func runPool(c *mc.Ctx, r *mc.Result, name string, p *hist.Pool, maxLive, permMax, maxStates int) {
 	ops := p.Ops(false)
 	probes := probesFor(p)
 	r.Bounds["graph."+name] = fmt.Sprintf("BFS over methods %v patterns %v (%d ops), states with <=%d routes expanded; %d probes x 3 option profiles; all insertion permutations of sets <=%d", p.Methods, p.Patterns, len(ops), maxLive, len(probes), permMax)
-	g, _ := hist.BFS(p, ops, maxLive, 0, runtime.NumCPU(), c.Expired, func(from *hist.State, op hist.Op) (*hist.State, []hist.Violation) {
+	g, _ := hist.BFS(p, ops, maxLive, maxStates, runtime.NumCPU(), c.Expired, func(from *hist.State, op hist.Op) (*hist.State, []hist.Violation) {
 		f := hist.Replay(from.Path)
 		hist.Apply(f, op, nil)
 		full := append(append([]hist.Op{}, from.Path...), op)
@@ -230,8 +231,11 @@ func runPool(c *mc.Ctx, r *mc.Result, name string, p *hist.Pool, maxLive, permMa
 		return &hist.State{Path: full, Model: m, Shape: fox.VerifShape(f), Depth: from.Depth + 1}, nil
 	})
 	if g.Truncated {
-		r.NotExhaustive = append(r.NotExhaustive, "graph "+name+": BFS stopped by the time guard")
+		// more states than any correct tree can have (the cap is several times the expected count): the
+		// discovered part is still compared below, so a history-dependent state is reported, not hidden
+		r.NotExhaustive = append(r.NotExhaustive, fmt.Sprintf("graph %s: BFS stopped at %d states (cap %d / time guard)", name, len(g.States), maxStates))
 	}
+	compareDeadline := time.Now().Add(4 * time.Minute)
 	r.States += int64(len(g.States))
 	r.Transitions += g.Transitions
 	multi := 0
@@ -253,7 +257,7 @@ func runPool(c *mc.Ctx, r *mc.Result, name string, p *hist.Pool, maxLive, permMa
 			for i := range ch {
 				st := g.States[i]
 				for prof := range profiles {
-					if c.Expired() {
+					if time.Now().After(compareDeadline) {
 						continue
 					}
 					msg := compareHistory(p, probes, st.Path, prof)
@@ -317,7 +321,7 @@ func runPool(c *mc.Ctx, r *mc.Result, name string, p *hist.Pool, maxLive, permMa
 	}
 	close(ch2)
 	wg.Wait()
-	if c.Expired() {
+	if time.Now().After(compareDeadline) {
 		r.NotExhaustive = append(r.NotExhaustive, "graph "+name+": comparison stopped by the time guard")
 	}
 	if len(g.States) > 2 {
@@ -328,11 +332,11 @@ func runPool(c *mc.Ctx, r *mc.Result, name string, p *hist.Pool, maxLive, permMa
 
 func run(c *mc.Ctx, r *mc.Result) {
 	if c.Quick() {
-		runPool(c, r, "prefixes", c02.PoolFor(true), 2, 3)
-		runPool(c, r, "siblings", c02.SiblingPool(), 4, 4)
+		runPool(c, r, "prefixes", c02.PoolFor(true), 2, 3, 40000)
+		runPool(c, r, "siblings", c02.SiblingPool(), 4, 4, 8000)
 	} else {
-		runPool(c, r, "prefixes", c02.PoolFor(false), 3, 4)
-		runPool(c, r, "siblings", c02.SiblingPool(), 6, 5)
+		runPool(c, r, "prefixes", c02.PoolFor(false), 3, 4, 600000)
+		runPool(c, r, "siblings", c02.SiblingPool(), 6, 5, 60000)
 	}
 }
 
